@@ -12,6 +12,30 @@ Proof.
   assert (Y : existsb (Nat.eqb x) l = true) by (apply existsb_exists; exists x; split; [exact X|apply Nat.eqb_refl]). congruence.
 Qed.
 
+(* the same from propositional hypotheses (used by the graphs that pipeline expressions denote, Proofs/C03Graph.v) *)
+Theorem compile_correct_prop a nodes visit : WF a nodes ->
+  (forall i nd k ndk, nth_error nodes i = Some nd -> nth_error nodes k = Some ndk ->
+     is_train nd = false -> nstateful nd = true -> is_train ndk = true -> ngid ndk = ngid nd -> k < i) ->
+  (forall l, a = Some l ->
+     (forall gt, In gt l -> exists k ndk, nth_error nodes k = Some ndk /\ is_train ndk = true /\ ngid ndk = fst gt)
+     \/ (forall gt k ndk, In gt l -> nth_error nodes k = Some ndk -> is_train ndk = true -> ngid ndk = fst gt -> False)) ->
+  NoDup visit -> (forall i, In i visit -> i < List.length nodes) -> List.length visit = List.length nodes ->
+  compile_ok a nodes visit = true.
+Proof.
+  intros wf Htf Hcm Hnd Hlt Hlen.
+  destruct (fold_add a nodes wf visit [] empty [] (inv_empty a nodes) Hnd (fun i _ X => X) Hlt) as [T [B [S0 [Hfold [Hinv Hmem]]]]].
+  assert (Hall : forall i nd, nth_error nodes i = Some nd -> In i S0).
+  { intros i nd Hn. apply Hmem. left.
+    assert (Hinc : incl (seq 0 (List.length nodes)) visit).
+    { apply NoDup_length_incl; [exact Hnd|rewrite seq_length; lia|]. intros j Hj. apply in_seq. specialize (Hlt j Hj). lia. }
+    apply Hinc. apply in_seq. split; [lia|]. simpl. apply nth_error_Some. rewrite Hn. discriminate. }
+  destruct (symbols_lfacts a nodes wf S0 T B Hinv Hall Hcm) as [L [Hsym HL]].
+  destruct (canon_some a nodes L HL) as [t Ht].
+  unfold compile_ok, compile. rewrite Hfold. simpl. rewrite Hsym. simpl. rewrite Ht.
+  rewrite (lfacts_validate a nodes wf Htf L HL t Ht).
+  rewrite (lfacts_commit a nodes wf L HL t Ht). reflexivity.
+Qed.
+
 Section Main.
 Variable a : assets.
 Variable nodes : list node.
@@ -93,17 +117,7 @@ Proof.
     - intros i Hi. match goal with X : forallb _ visit = true |- _ => rewrite forallb_forall in X; apply Nat.ltb_lt; exact (X i Hi) end.
     - apply Nat.eqb_eq. assumption. }
   destruct Hv as [Hnd [Hlt Hlen]].
-  destruct (fold_add a nodes wf visit [] empty [] (inv_empty a nodes) Hnd (fun i _ X => X) Hlt) as [T [B [S0 [Hfold [Hinv Hmem]]]]].
-  assert (Hall : forall i nd, nth_error nodes i = Some nd -> In i S0).
-  { intros i nd Hn. apply Hmem. left.
-    assert (Hinc : incl (seq 0 (List.length nodes)) visit).
-    { apply NoDup_length_incl; [exact Hnd|rewrite seq_length; lia|]. intros j Hj. apply in_seq. specialize (Hlt j Hj). lia. }
-    apply Hinc. apply in_seq. split; [lia|]. simpl. apply nth_error_Some. rewrite Hn. discriminate. }
-  destruct (symbols_lfacts a nodes wf S0 T B Hinv Hall main_commit) as [L [Hsym HL]].
-  destruct (canon_some a nodes L HL) as [t Ht].
-  unfold compile_ok, compile. rewrite Hfold. simpl. rewrite Hsym. simpl. rewrite Ht.
-  rewrite (lfacts_validate a nodes wf main_trainer_first L HL t Ht).
-  rewrite (lfacts_commit a nodes wf L HL t Ht). reflexivity.
+  exact (compile_correct_prop a nodes visit wf main_trainer_first main_commit Hnd Hlt Hlen).
 Qed.
 
 End Main.
